@@ -480,7 +480,16 @@ func (l *lexer) expr() (*Expr, error) {
 			name := l.next()
 			typ := "int"
 			if p := l.peek(); p != "," && p != "::" {
-				typ = l.next()
+				prefix := ""
+				for l.peek() == "[" || l.peek() == "*" {
+					if l.next() == "[" {
+						l.next() // "]"
+						prefix += "[]"
+					} else {
+						prefix += "*"
+					}
+				}
+				typ = prefix + l.next()
 				for l.peek() == "." {
 					l.next()
 					typ += "." + l.next()
